@@ -54,7 +54,8 @@ Leaf(r, k) ==
        [] c = 9  -> (CASE a % 3 = 0 -> <<"in", "title", <<w1, w2>>>>
                        [] a % 3 = 1 -> <<"in", "n", <<b % 10, e % 10, (b + e) % 10>>>>
                        [] OTHER     -> <<"in", "tag", <<1 + (b % Len(Tags)), 1 + (e % Len(Tags))>>>>)
-       [] c = 10 -> <<"w", Fld3(e), w3>>
+       [] c = 10 -> \* a phrase with the over-long word (dropped by the analyzer) in the middle, in front, at the end, twice
+                    <<"ph", Fld3(e \div 4), (CASE e % 4 = 0 -> <<w1, LW, w2>> [] e % 4 = 1 -> <<LW, w1, w2>> [] e % 4 = 2 -> <<w1, w2, LW>> [] OTHER -> <<w1, LW, LW, w2>>), 0, FALSE>>
        [] c = 11 -> <<"all">>
        [] c = 12 -> (CASE a % 3 = 0 -> <<"ip", 1 + (b % 3)>> [] a % 3 = 1 -> <<"bytes", 1 + (b % 2)>> [] OTHER -> <<"facet", 1 + (b % 3)>>)
        [] c = 13 -> IF a % 2 = 0 THEN <<"jsw", w1>> ELSE <<"jsn", (<<5, 7, 9>>)[(b % 3) + 1]>>
